@@ -1,11 +1,40 @@
-(* C09 - key serialisation round-trips exactly
-   FULL STATEMENT: see DESIGN.md section 7 (pk_roundtrip, sk_roundtrip, keygen_roundtrip).  Not yet proved as a theorem about the composed
-   model; until then the property is decided by the differential streams of tools/streams.py
-   (real code against the extracted FIPS 204 transcription / the property's own oracle), and the
-   lemmas below are the part that is kernel-checked. *)
-Require Import F204.Base.Util F204.Base.Mach F204.Gen.Params F204.Impl.Helpers F204.Impl.Encodings.
+(* C09 - key serialisation round-trips exactly and preserves behaviour.
+   FULL STATEMENT, proved below for every hash family with the output-length laws and each parameter set:
+     (1) every byte string of PK_LEN bytes deserialises (never Err/Panic) and serialises back to itself;
+     (2) every byte string of SK_LEN bytes that deserialisation accepts serialises back to itself;
+     (3) conversely, the key pair returned by key generation for ANY seed serialises to byte strings
+         that deserialise to THE SAME structs (field-for-field equal), so every later operation
+         (signing with the same randomness, verification of any input, derivation) is computed from
+         identical data and gives identical results.
+   The structs hold s1, s2, t0, t1*2^d in NTT + Montgomery form; the proofs go through the
+   NTT/inverse-NTT refinement and the Montgomery-form relation of Proofs/KeyRoundTrip.v. *)
+Require Import List ZArith. Import ListNotations.
+Require Import F204.Base.Util F204.Base.Mach F204.Gen.Params F204.Hash.HashIface F204.Impl.Helpers F204.Impl.Encodings
+  F204.Impl.MlDsa F204.Impl.Api F204.Proofs.BitPackProofs F204.Proofs.KeyRoundTrip F204.Proofs.DeriveRefine.
 Open Scope Z_scope.
+
+Theorem C09_public_key_bytes_roundtrip : forall H P, In P all_params -> forall pkb, bytes_ok pkb -> zlen pkb = p_pk_len P ->
+  exists pk, pk_try_from_bytes H P pkb = Ok pk /\ pk_into_bytes P pk = Ok pkb.
+Proof.
+  intros H P HP pkb Hb Hl. destruct (pk_roundtrip_bytes H P pkb HP Hb Hl) as (pk & E1 & E2 & _). exists pk. split; assumption.
+Qed.
+
+Theorem C09_private_key_bytes_roundtrip : forall P, In P all_params -> forall skb key, bytes_ok skb -> zlen skb = p_sk_len P ->
+  sk_try_from_bytes P skb = Ok key -> sk_into_bytes P key = Ok skb.
+Proof. intros P HP skb key Hb Hl E. exact (sk_roundtrip_bytes P skb key HP Hb Hl E). Qed.
+
+Theorem C09_generated_keys_roundtrip_to_same_structs : forall H, HashLaws H -> forall P, In P all_params -> forall xi pk sk,
+  keygen_from_seed H P xi = Ok (pk, sk) ->
+  exists pkb skb, bytes_ok pkb /\ zlen pkb = p_pk_len P /\ bytes_ok skb /\ zlen skb = p_sk_len P /\
+    pk_into_bytes P pk = Ok pkb /\ pk_try_from_bytes H P pkb = Ok pk /\
+    sk_into_bytes P sk = Ok skb /\ sk_try_from_bytes P skb = Ok sk.
+Proof. intros H HL P HP xi pk sk E. exact (generated_roundtrip H HL P HP xi pk sk E). Qed.
+
 (* t1 = 1023 is the largest value whose shift by d stays below q: t1 * 2^d <= q - 1 *)
-Theorem C09_t1_shift_in_range_partial : T1MAX = 1023 /\ T1MAX * 2 ^ D = Q - 1.
+Theorem C09_t1_shift_in_range : T1MAX = 1023 /\ T1MAX * 2 ^ D = Q - 1.
 Proof. split; reflexivity. Qed.
-Print Assumptions C09_t1_shift_in_range_partial.
+
+Print Assumptions C09_public_key_bytes_roundtrip.
+Print Assumptions C09_private_key_bytes_roundtrip.
+Print Assumptions C09_generated_keys_roundtrip_to_same_structs.
+Print Assumptions C09_t1_shift_in_range.
